@@ -1,7 +1,8 @@
 (* C01 - Same Day, then 30-day, then Section 104.  Statements only. *)
 From Coq Require Import QArith Qcanon ZArith List Bool Sorted.
 Require Import CGT.Model.Num CGT.Model.Match CGT.Proofs.NumFacts CGT.Proofs.MatchFacts CGT.Proofs.MatchInv
-               CGT.Proofs.MatchOrder CGT.Proofs.MatchGreedy CGT.Proofs.Examples.
+               CGT.Proofs.MatchOrder CGT.Proofs.MatchGreedy CGT.Proofs.ReportAdd CGT.Proofs.Examples.
+Require Import CGT.Model.Agg CGT.Model.Report.
 Import ListNotations.
 Open Scope Qc_scope.
 
@@ -77,6 +78,16 @@ Theorem C01_pool_only_after_window_exhausted : forall w offs d fut R rem cl, 0 <
 Proof. exact bnb_exhaustive. Qed.
 Print Assumptions C01_earliest_first.
 Print Assumptions C01_pool_only_after_window_exhausted.
+
+(* The day records the report model builds from ANY ledger are sorted by date, so the order theorem holds for every security of
+   every ledger the model accepts - no hypothesis on the input is left. *)
+Theorem C01_days_always_sorted : forall l, sorted_days (days_of l).
+Proof. exact days_of_sorted. Qed.
+Theorem C01_order_every_ledger : forall P l s st, sr_res (eval_tick P l s) = inr st ->
+  Forall (fun x => legs_shape (p_window P) (fst x) (snd x)) (m_disp st).
+Proof. exact eval_legs_shape. Qed.
+Print Assumptions C01_days_always_sorted.
+Print Assumptions C01_order_every_ledger.
 
 Example C01_witness : sorted_days ex1 /\ exists s, run 30 ex1 = inr s /\ List.length (m_disp s) = 3%nat.
 Proof. split; [exact ex1_sorted|]. destruct ex1_runs as (s & E & L & _). exists s. split; assumption. Qed.
